@@ -86,10 +86,11 @@ def run(ck):
                 ck.violation('witness', w, signature='U-rich' if u > 0 else None)
     # the same premises through the readers: residues embedded in gap characters / padding (aligned FASTA, Clustal-like padding)
     from props.runner import FileRunner
+    from props.c04 import render_clu, render_msf
     fr = FileRunner(ck)
     try:
         fmeta = []
-        for prem, seqs in cases[: (120 if ck.tier == 'quick' else 1500)]:
+        for prem, seqs in cases[: (240 if ck.tier == 'quick' else 3000)]:
             if prem not in ('p1', 'p2'):
                 continue
             width = max(len(x) for x in seqs) * rng.choice([1, 2, 6, 20])
@@ -102,9 +103,20 @@ def run(ck):
                     row.append(rng.choice('-.') * (q - prev)); row.append(ch); prev = q
                 row.append('-' * (width - prev))
                 rows.append(''.join(row))
-            txt = ''.join('>s%d\n%s\n' % (i, r) for i, r in enumerate(rows))
+            # names must not count: nucleotide sets get long names made of protein-only letters, protein sets names made of U/ACGT
+            nm = [('%s%d' % (gen.rand_seq(rng, 'WFYLIKEDQRSHVMP' if prem == 'p1' else 'UUUUACGTN', rng.choice([3, 40, 120])), i)) for i in range(len(rows))]
+            fmtk = rng.choice(['afa', 'afa-named', 'clustal', 'msf'])
+            if fmtk == 'afa':
+                txt = ''.join('>s%d\n%s\n' % (i, r) for i, r in enumerate(rows))
+            elif fmtk == 'afa-named':
+                txt = ''.join('>%s\n%s\n' % (n, r) for n, r in zip(nm, rows))
+            elif fmtk == 'clustal':
+                txt = render_clu(nm, [r.replace('.', '-') for r in rows], 60, 0)
+            else:
+                txt = render_msf(nm, [r.replace('.', '-') for r in rows], 50, prem != 'p1')
             fr.add([txt], 'fasta', 1, 5)
             fmeta.append((prem, seqs, txt))
+            ck.count('reader-format:' + fmtk)
         for (prem, seqs, txt), r in zip(fmeta, fr.run()):
             st = r['status']
             want = 'biotype=1' if prem == 'p1' else 'biotype=0'
